@@ -553,8 +553,14 @@ class PythonToIrCompiler:
             if ty is None:
                 self.error(node, "Undefined variable")
             else:
-                mem = self.emit(ir.Alloc(f"alloc_{name}", 8, 8))
-                addr = self.emit(ir.AddressOf(mem, f"addr_{name}"))
+                # Allocate in the entry block, such that the variable is
+                # available on every path, also when it is first assigned
+                # inside a branch or a loop:
+                entry = self.builder.function.entry
+                mem = ir.Alloc(f"alloc_{name}", 8, 8)
+                addr = ir.AddressOf(mem, f"addr_{name}")
+                entry.insert_instruction(addr)
+                entry.insert_instruction(mem)
                 var = Var(addr, True, ty)
                 self.local_map[name] = var
         return var
